@@ -24,10 +24,14 @@ int iterator_templ__mask_from(const struct iterator_templ *self, unsigned k) __C
 int iterator_templ__mask_to(const struct iterator_templ *self, unsigned k) __CPROVER_requires(k == g_k) __CPROVER_assigns() __CPROVER_ensures(__CPROVER_return_value == g_mask_to);
 int iterator_templ__getNodeLevel(const struct iterator_templ *self, node_handle p) __CPROVER_requires(p == g_p) __CPROVER_assigns() __CPROVER_ensures(__CPROVER_return_value == g_plvl);
 const struct forest *iterator_templ__F(struct iterator_templ *self) __CPROVER_requires(1) __CPROVER_assigns() __CPROVER_ensures(__CPROVER_return_value == g_F);
-_Bool iterator_templ__isForSets(const struct iterator_templ *self) __CPROVER_requires(1) __CPROVER_assigns() __CPROVER_ensures(__CPROVER_return_value == 0);
-_Bool iterator_templ__first_unpr(struct iterator_templ *self, unsigned k, node_handle p)
-__CPROVER_requires(1) __CPROVER_assigns(g_rec_calls, g_rec_k, g_rec_p)
-__CPROVER_ensures(g_rec_calls == __CPROVER_old(g_rec_calls) + 1 && g_rec_k == k && g_rec_p == p && __CPROVER_return_value == g_rec_ret);
+_Bool g_sets;                          /* set forest (first_pri is only used on relations) */
+_Bool iterator_templ__isForSets(const struct iterator_templ *self) __CPROVER_requires(1) __CPROVER_assigns() __CPROVER_ensures(__CPROVER_return_value == g_sets);
+#define RECORDS_THE_STEP_BELOW __CPROVER_requires(1) __CPROVER_assigns(g_rec_calls, g_rec_k, g_rec_p) \
+    __CPROVER_ensures(g_rec_calls == __CPROVER_old(g_rec_calls) + 1 && g_rec_k == k && g_rec_p == p && __CPROVER_return_value == g_rec_ret)
+_Bool verif_first_unpr_below(struct iterator_templ *self, unsigned k, node_handle p) RECORDS_THE_STEP_BELOW;
+#ifndef JOB_UNPR
+_Bool iterator_templ__first_unpr(struct iterator_templ *self, unsigned k, node_handle p) RECORDS_THE_STEP_BELOW;
+#endif
 _Bool forest__isFullyReduced(const struct forest *f) __CPROVER_requires(f == g_F) __CPROVER_assigns() __CPROVER_ensures(__CPROVER_return_value == g_fully);
 node_handle forest__getDownPtr(const struct forest *f, node_handle p, int i)
 REQUIRES(a_child_is_read_from_the_node_at_a_real_index, f == g_F && p == g_p && i >= 0)
@@ -48,6 +52,7 @@ node_handle unpacked_node__down(const struct unpacked_node *u, unsigned z) REQUI
 struct edge_value *unpacked_node__edgeval(const struct unpacked_node *u, unsigned z) __CPROVER_requires(0) __CPROVER_assigns() __CPROVER_ensures(1);
 struct edge_value *verif_zero_ev(void) __CPROVER_requires(0) __CPROVER_assigns() __CPROVER_ensures(1);
 
+#ifndef JOB_UNPR
 #define FIXED_I   (g_mask_to == DONT_CHANGE ? __CPROVER_old(g_Mfrom) : g_mask_to)
 #define AT_LEVEL  ((int)k == -g_plvl)
 _Bool iterator_templ__first_pri(struct iterator_templ *self, unsigned k, node_handle p)
@@ -73,3 +78,36 @@ ENSURES(a_skipped_identity_level_matches_exactly_the_equal_value, !(p != 0 && !A
 ENSURES(a_skipped_identity_level_rejects_every_other_value, !(p != 0 && !AT_LEVEL && !g_fully && g_Mto != g_Mfrom) ||
         (g_rec_calls == 0 && __CPROVER_return_value == 0))
 ;
+#endif
+
+/* ---- first_unpr on an unprimed variable the mask FIXES (U_from(k) == 0); the primed step (first_pri) records how it was called ---- */
+_Bool g_multi; unsigned g_term_calls; _Bool g_pri_ret; unsigned g_pri_calls; unsigned g_pri_k; node_handle g_pri_p; struct unpacked_node *g_Uf;
+struct unpacked_node *iterator_templ__U_from(struct iterator_templ *self, unsigned k) { __CPROVER_assert(k == g_k, "the cursor is read at this variable"); return g_Uf; }
+unsigned *iterator_templ__Z_from(struct iterator_templ *self, unsigned k) __CPROVER_requires(k == g_k) __CPROVER_assigns() __CPROVER_ensures(__CPROVER_return_value == &g_Z);
+_Bool iterator_templ__isMultiTerminal(const struct iterator_templ *self) __CPROVER_requires(1) __CPROVER_assigns() __CPROVER_ensures(__CPROVER_return_value == g_multi);
+void iterator_templ__M_setTerm(const struct iterator_templ *self, node_handle p) __CPROVER_requires(p == g_p) __CPROVER_assigns(g_term_calls) __CPROVER_ensures(g_term_calls == __CPROVER_old(g_term_calls) + 1);
+void iterator_templ__M_setTerm_ev(const struct iterator_templ *self, const struct edge_value *v, node_handle p) __CPROVER_requires(p == g_p) __CPROVER_assigns(g_term_calls) __CPROVER_ensures(g_term_calls == __CPROVER_old(g_term_calls) + 1);
+#ifdef JOB_UNPR
+_Bool iterator_templ__first_pri(struct iterator_templ *self, unsigned k, node_handle p)
+__CPROVER_requires(1) __CPROVER_assigns(g_pri_calls, g_pri_k, g_pri_p)
+__CPROVER_ensures(g_pri_calls == __CPROVER_old(g_pri_calls) + 1 && g_pri_k == k && g_pri_p == p && __CPROVER_return_value == g_pri_ret);
+
+#define U_AT_LEVEL ((int)k == g_plvl)
+#define U_NEXT     (U_AT_LEVEL ? g_down : p)
+_Bool iterator_templ__first_unpr(struct iterator_templ *self, unsigned k, node_handle p)
+__CPROVER_requires(self != NULL && k == g_k && p == g_p && k <= (1u << 30) && verif_exc == 0)
+__CPROVER_requires(g_Uf == NULL)                                    /* the mask fixes x_k */
+__CPROVER_requires(g_mask_from >= 0)
+__CPROVER_requires(g_rec_calls == 0 && g_pri_calls == 0 && g_term_calls == 0)
+__CPROVER_assigns(g_Z, g_rec_calls, g_rec_k, g_rec_p, g_pri_calls, g_pri_k, g_pri_p, g_down_i, g_term_calls)
+ENSURES(nothing_is_raised, verif_exc == 0)
+ENSURES(the_assignment_is_left_alone_at_a_fixed_variable, g_Mfrom == __CPROVER_old(g_Mfrom) && g_Mto == __CPROVER_old(g_Mto) && g_Z == __CPROVER_old(g_Z))
+ENSURES(the_empty_function_has_no_assignment, p != 0 || (__CPROVER_return_value == 0 && g_rec_calls == 0 && g_pri_calls == 0 && g_term_calls == 0))
+ENSURES(below_the_last_variable_the_value_is_reported_once, !(p != 0 && k == 0) || (__CPROVER_return_value == 1 && g_term_calls == 1 && g_rec_calls == 0 && g_pri_calls == 0))
+ENSURES(a_node_at_the_level_is_read_at_the_fixed_value, !(p != 0 && k != 0 && U_AT_LEVEL) || g_down_i == g_mask_from)
+ENSURES(in_a_set_the_next_unprimed_variable_follows, !(p != 0 && k != 0 && g_sets) ||
+        (g_rec_calls == 1 && g_pri_calls == 0 && g_term_calls == 0 && g_rec_k == k - 1 && g_rec_p == U_NEXT && __CPROVER_return_value == g_rec_ret))
+ENSURES(in_a_relation_the_primed_variable_follows, !(p != 0 && k != 0 && !g_sets) ||
+        (g_pri_calls == 1 && g_rec_calls == 0 && g_term_calls == 0 && g_pri_k == k && g_pri_p == U_NEXT && __CPROVER_return_value == g_pri_ret))
+;
+#endif
